@@ -424,6 +424,58 @@ Definition cmd_scope (c : tcase) : list bytes :=
   | _ => []
   end.
 
+(* C08: a command on explicit targets leaves the stage file (record, bytes, inode, mtime: observation
+   100+k for the k-th stage of the pre-state) and the output artifacts of every stage OUTSIDE the
+   traversal (targets and, unless --single-stage, their upstream closure) physically untouched *)
+Definition scope_targets (c : tcase) : option (list bytes * bool) :=
+  match t_cmd c with
+  | CCommit ts _ => Some (ts, true)
+  | CCheckout ts _ s => Some (ts, negb s)
+  | CStatus ts => Some (ts, true)
+  | CRun ts s => Some (ts, negb s)
+  | CPush ts s => Some (ts, negb s)
+  | CFetch ts s => Some (ts, negb s)
+  | _ => None
+  end.
+
+Definition full_scope (c : tcase) : option (list bytes) :=
+  match scope_targets c with
+  | Some ((_ :: _) as ts, recursive) =>
+    match load_index (w_index (t_pre c)) (w_stages (t_pre c)) [] with
+    | Some idx =>
+      match fold_left (fun acc t => match acc with
+                                    | Ok done => walk_stage (S (length idx)) idx recursive done [] t
+                                    | Err => Err end) ts (Ok []) with
+      | Ok done => Some done
+      | Err => None
+      end
+    | None => None
+    end
+  | _ => None
+  end.
+
+Fixpoint others_untouched (c : tcase) (sc : list bytes) (k : N) (l : list (bytes * option stage)) : bool :=
+  match l with
+  | [] => true
+  | (sp, os) :: r =>
+    (mem sp sc ||
+     (negb (has_obs c (100 + k)) &&
+      match os, alookup sp (w_stages (t_post c)) with
+      | Some a, Some (Some b) =>
+          stage_eqb a b &&
+          forallb (fun art => onode_eqb (get (w_root (t_pre c)) (comps (a_path art)))
+                                        (get (w_root (t_post c)) (comps (a_path art)))) (s_outputs a)
+      | None, Some None => true
+      | _, _ => false
+      end)) && others_untouched c sc (k + 1) r
+  end.
+
+Definition spec_others_untouched (c : tcase) : bool :=
+  match full_scope c with
+  | None => true
+  | Some sc => others_untouched c sc 0 (w_stages (t_pre c))
+  end.
+
 Definition spec_table (c : tcase) : list (N * bool) :=
   [
    (1, (spec_cache (w_cache (t_pre c)) (w_cache (t_post c))));
@@ -445,6 +497,7 @@ Definition spec_table (c : tcase) : list (N * bool) :=
    (20, (negb (has_obs c 1)));
    (24, (negb (has_obs c 3)));
    (26, (spec_human c));
+   (27, (spec_others_untouched c));
    (21, (node_eqb (w_root (t_pre c)) (w_root (t_post c))));
    (18, ((if t_ok c then spec_valid_log (t_pre c) (fst (run_args c)) (snd (run_args c)) (run_log c) else true)));
    (19, ((if t_ok c then spec_consistent (t_sems c) (t_post c) (fst (run_args c)) else true)));
